@@ -18,9 +18,9 @@ const Header_1E6 = "源数据," +
 	"[ 3] P 扑克检测 m=8," +
 	"[ 3] Q 扑克检测 m=8," +
 	"[ 4] P1 重叠子序列检测 m=3," +
-	"[ 4] Q1 重叠子序列检测 m=2," +
+	"[ 4] Q1 重叠子序列检测 m=3," +
 	"[ 4] P2 重叠子序列检测 m=3," +
-	"[ 4] Q2 重叠子序列检测 m=2," +
+	"[ 4] Q2 重叠子序列检测 m=3," +
 	"[ 4] P1 重叠子序列检测 m=5," +
 	"[ 4] Q1 重叠子序列检测 m=5," +
 	"[ 4] P2 重叠子序列检测 m=5," +
